@@ -25,6 +25,30 @@ OPS = {  # name -> (OP code, regex of the real callable, needs K>=?)
     'empty':    (13, LAM('container_type', 'lambda0', VEC + r' const\*')),
 }
 
+STR = r'std::__cxx11::basic_string<char, std::char_traits<char>, std::allocator<char> >'
+SLAM = lambda reg, which, sig: SL + reg + '<' + STR + r' >\(.*\)::\'' + which + r'\'\(' + sig + r'\)::operator\(\)'
+STRING_OPS = {'index': (1, SLAM('random_access_container_type', 'lambda', STR + '&, int'), True), 'cindex': (2, SLAM('random_access_container_type', 'lambda', STR + ' const&, int'), True),
+              'substr': (3, SLAM('string_type', 'lambda', STR + r' const\*, unsigned long, unsigned long'), True), 'append_char': (4, SLAM('string_type', 'lambda', STR + r'\*, char'), False),
+              'clear': (5, SLAM('string_type', 'lambda', STR + r'\*'), False), 'size': (6, SLAM('string_type', 'lambda0', STR + r' const\*'), False), 'empty': (7, SLAM('string_type', 'lambda', STR + r' const\*'), False)}
+
+def string_harnesses(tier):
+    hs = []
+    ks = [0, 1, 2, 3] if tier == 'quick' else [0, 1, 2, 3, 5, 8]
+    for name, (code, rx, can_fail) in STRING_OPS.items():
+        syms = core.find_symbols(FAM, rx)
+        if len(syms) != 1:
+            hs.append(Harness('T.' + name, FAM, [rx], 'c12_string.c', shapes=[{'_tag': 'unit-missing'}])); continue
+        fn = 'F_' + core.cname(syms[0][0])
+        shapes = []
+        for k in ks:
+            wit = []
+            if can_fail: wit.append('witness: precondition violated')
+            if not (name in ('index', 'cindex') and k == 0): wit.append('witness: operation performed')
+            shapes.append(dict(FN=fn, OP=code, K=k, _tag='K=%d' % k, _witness=tuple(wit)))
+        hs.append(Harness('T.string.' + name, FAM, [rx], 'c12_string.c', stubs=[r'std::out_of_range::'], shapes=shapes, opts=['--unwind', '18'], timeout=300, mem_gb=6, string_model=True, inputs=['idx', 'pos', 'len', 'c'],
+                          note='a string of exactly K bytes (every byte value), arbitrary int index / size_t position and length'))
+    return hs
+
 def harnesses(tier):
     hs = []
     ks = [0, 1, 2, 3] if tier == 'quick' else [0, 1, 2, 3, 4, 5]
@@ -67,9 +91,10 @@ def harnesses(tier):
         shapes = [dict(OP=code, FN=core.csym(FAM, rx), K=k, _tag='K=%d' % k, _witness=(('witness: operation performed',) if (k or not needs) else ()) + (('witness: precondition violated',) if needs else ())) for k in ks]
         hs.append(Harness('CR.' + nm, FAM, [rx], 'c12_range.c', stubs=[r'std::range_error::'], shapes=shapes, opts=['--unwind', '4'], timeout=120, mem_gb=4, inputs=['i0', 'i1'],
                           note='const range view; range [begin,end] anywhere inside a vector of exactly K elements, both ends symbolic'))
+    hs += string_harnesses(tier)
     return hs
 
 ASSUMPTIONS = ['elements are Boxed_Values without control block (copy/destroy of an element is a pointer copy; ownership is C11)', 'operator new = malloc that does not fail',
                'std::range_error / std::out_of_range construction is cut']
-OUTSIDE = ['Map (std::map internals are not modelled)', 'string find family (pure forwarding to libstdc++)', 'range views after structural modification of their container (documented exception of the property)',
+OUTSIDE = ['Map (std::map internals are not modelled)', 'string find family, c_str/data (pure forwarding to libstdc++); strings longer than 15 bytes (SSO string model)', 'range views after structural modification of their container (documented exception of the property)',
            'resize/reserve with sizes above the harness bound']
